@@ -1166,7 +1166,7 @@ func main() {
 		scripts, drain := tinyScripts(rng, T)
 		q := newQ(variant, N+32)
 		warm := 0
-		if (i/3)%3 == 0 { // unrecorded sequential warm-up that leaves the queue empty: the recorded calls straddle the end of the first ring
+		if (i/3)%3 == 0 { // unrecorded sequential warm-up that leaves the queue empty: the recorded calls straddle a wrap of the ring index (cycle change)
 			warm = N - rng.Range(0, 5)
 			for v := 0; v < warm; v++ {
 				q.Enq(int64(20 + v%N))
@@ -1191,7 +1191,7 @@ func main() {
 		lscq.VerifYieldHook = nil
 		label := fmt.Sprintf("concurrent/%s/tiny(lin_check)/T=%d%s", q.Name(), T, pert)
 		if warm > 0 {
-			label += "+ring-end"
+			label += "+cycle-wrap"
 		}
 		light = append(light, pending{"CLin\n " + histStr(h), label, true, nil,
 			map[string]interface{}{"T": T, "events": len(h), "drain": drain, "warm": warm}})
@@ -1199,7 +1199,7 @@ func main() {
 			keepTiny = append(keepTiny, h)
 		}
 	}
-	w.Notes["tiny_histories_recorded_across_the_end_of_the_first_ring"] = tinyWarm
+	w.Notes["tiny_histories_recorded_across_a_cycle_wrap_of_the_ring"] = tinyWarm
 	// corrupted copies of tiny histories: aspects_b against lin_check on histories that are (mostly) not linearizable
 	for i, h0 := range keepTiny {
 		for m := 0; m < 6; m++ {
@@ -1340,6 +1340,6 @@ func main() {
 	}
 	w.Close(o, "sequential: one case = one trace of Enqueue/Dequeue bursts on New[int64]/NewPointer/NewUint64 with results, cursor snapshots and slot probes, "+
 		"non-trivial when some Dequeue returned a value; concurrent: one case = one recorded history (P,C in 1..16, unique values, stamps from one atomic counter), "+
-		"non-trivial when >= 2 goroutines took part; tiny histories (2..4 goroutines, <= 12 calls, a third recorded across the end of the first ring) are decided by lin_check and aspects_b; "+
+		"non-trivial when >= 2 goroutines took part; tiny histories (2..4 goroutines, <= 12 calls, a third recorded across a wrap of the ring index after an unrecorded warm-up) are decided by lin_check and aspects_b; "+
 		"distinct = distinct case text")
 }
